@@ -55,6 +55,25 @@ func samePlate(c *x509.Certificate) *x509.Certificate {
 	return out
 }
 
+// trickyContents are contents that themselves look like what the surrounding code handles: text
+// carrying a PEM block, a DER SignedData blob, an S/MIME header, DER lengths. "All contents"
+// includes them, attached and detached.
+func trickyContents() []namedBytes {
+	inner, _ := pkcs7.SignPKCS7(keys.K(2), keys.C(2), pkcs7.OIDData, []byte("inner"))
+	return []namedBytes{
+		{"text ending in a PEM block", append([]byte("A note.\nThe key follows.\n"), keys.CertPEM(keys.C(2))...)},
+		{"a PEM block first, then text", append(append([]byte{}, keys.CertPEM(keys.C(2))...), []byte("trailing text\n")...)},
+		{"a DER SignedData blob", inner},
+		{"S/MIME header text", []byte("MIME-Version: 1.0\r\nContent-Type: multipart/signed; protocol=\"application/x-pkcs7-signature\"; boundary=\"----B\"\r\n\r\n------B\r\nbody\r\n")},
+		{"bytes that look like DER lengths", []byte{0x30, 0x82, 0xff, 0xff, 0x04, 0x84, 0x7f, 0xff, 0xff, 0xff, 0xa0, 0x80, 0x00, 0x00}},
+	}
+}
+
+type namedBytes struct {
+	name string
+	b    []byte
+}
+
 func p7LibSeeds() []p7Seed {
 	var seeds []p7Seed
 	content := []byte("detached content signed by the library")
